@@ -12,7 +12,7 @@ func SignDS(k *Key, msg []byte) []byte {
 	sum := sha256.Sum256(msg)
 	var sigAlg byte
 	switch k.Kind {
-	case "p256", "p384":
+	case "p256", "p384", "p224":
 		sigAlg = 3
 	case "rsa2048":
 		sigAlg = 1
